@@ -68,7 +68,7 @@ def ssa_check(source: str):
                     for tok in IDENT.findall(stripped):
                         if tok.startswith(("state.", "calibration.", "control.")) or tok in LIBM:
                             continue
-                        if TEMP.fullmatch(tok):
+                        if TEMP.fullmatch(tok) or re.fullmatch(r"M_[A-Z0-9_]+", tok):  # <cmath> constants such as M_PI_4
                             continue
                         problems.append(f"{fname}: temporary {name} computed from {tok!r}")
                     if TEMP.search(rhs):
